@@ -32,7 +32,8 @@ TECHNIQUE = ("bounded exhaustive enumeration on the real code: (L1) all tiny sub
              "re-evaluating every returned decision")
 RULE = ("L1: one execution = (algorithm, problem = (n<=5 candidates [thorough: also n=6,k<=3], k<=n, per-candidate score "
         "vector over a 3-value alphabet incl. ties [2 values for the largest (n,k), see bounds], separable or "
-        "pair-interaction objective, objective weight +1/-1, constraint kind), one answer of "
+        "pair-interaction or ORDER-DEPENDENT objective (position weights / non-symmetric consecutive-pair table), objective "
+        "weight +1/-1, constraint kind, constructed directly or reached through a setter history), one answer of "
         "rng.choice) run through minimize(); non-trivial = the returned set differs from the initial draw / k<n with "
         "non-constant scores. L2: one transition = (operator, problem, parent individual(s) as ordered tuples, answer "
         "vector of choice/randint/random/binomial); non-trivial = output differs from input. L3: one execution = "
@@ -53,6 +54,7 @@ SORT = "SortingSubsetOptimizationAlgorithm"
 HILL = "SteepestDescentSubsetHillClimber"
 SHILL = "SortingSteepestDescentSubsetHillClimber"
 HILL_RS = HILL + "[RandomState]"          # same class, rng is a numpy.random.RandomState
+HIST = "[setters]"                         # suffix: the problem object is reached through a setter history
 
 
 def _dg(*parts):
@@ -101,9 +103,20 @@ def pair_table(kind, n, u):
     return t
 
 
+POSW = [1.0, 0.5, 2.0, 0.25, 1.5, 0.75]          # unequal position weights (dyadic)
+ORDER = ("pos", "opair")                            # objective kinds whose value depends on the ORDER of the decision vector
+
+
+def opair_table(n, u):
+    """NON-symmetric table read over consecutive positions (x_a, x_{a+1}), e.g. (female, male) cross values"""
+    return [[0.0 if i == j else u * ((3 * i + j) % 4) for j in range(n)] for i in range(n)]
+
+
 def constraints(kind, n):
     d = {}
-    if kind == "ineq":
+    if kind == "oineq":          # order-dependent: position-weighted knapsack
+        d["ineq"] = [dict(w=[2, 0, 1, 0, 1, 2][:n], cap=1, pw=POSW)]
+    elif kind == "ineq":
         d["ineq"] = [dict(w=[1, 0, 1, 0, 1, 0][:n], cap=1)]
     elif kind == "eq":
         d["eq"] = [dict(w=[1, 1, 0, 0, 0, 0][:n], target=1)]
@@ -118,14 +131,60 @@ def constraints(kind, n):
 
 def subset_spec(seed, n, k, scores, okind="sep", wt=1.0, con="none", scores2=None, okind2="sep"):
     u = UNIT[seed % 3]
-    obj = [dict(s=list(scores), pair=None if okind == "sep" else pair_table(okind, n, u))]
+
+    def one(sc, ok):
+        if ok == "pos":
+            return dict(s=list(sc), pair=None, posw=POSW)
+        if ok == "opair":
+            return dict(s=list(sc), pair=None, opair=opair_table(n, u))
+        return dict(s=list(sc), pair=None if ok == "sep" else pair_table(ok, n, u))
+    obj = [one(scores, okind)]
     wts = [wt]
     if scores2 is not None:
-        obj.append(dict(s=list(scores2), pair=None if okind2 == "sep" else pair_table(okind2, n, u)))
+        obj.append(one(scores2, okind2))
         wts.append(1.0)
     sp = dict(kind="subset", cand=LABELS[seed % 3][:n], k=k, obj=obj, obj_wt=wts)
     sp.update(constraints(con, n))
     return sp
+
+
+def hist_spec(spec):
+    """a deliberately different problem of the same encoding and number of objectives: the starting point of a setter
+    history that ends in `spec`"""
+    nobj = len(spec["obj"])
+    if spec["kind"] == "subset":
+        n, k = len(spec["cand"]), spec["k"]
+        ka = k - 1 if k > 1 else min(n, 2)
+        cand = [c + 20 for c in reversed(spec["cand"])]
+        return dict(kind="subset", cand=cand, k=ka, obj=[dict(s=[float((3 * i + j) % 4) for i in range(n)], pair=None) for j in range(nobj)],
+                    obj_wt=[-w for w in spec.get("obj_wt", [1.0] * nobj)])
+    d = len(spec["lo"])
+    if spec["kind"] == "binary":
+        lo, hi = [0] * d, [1] * d
+    elif spec["kind"] == "integer":
+        lo, hi = [a - 2 for a in spec["lo"]], [b + 3 for b in spec["hi"]]
+    else:
+        lo, hi = [a - 2.0 for a in spec["lo"]], [b + 3.0 for b in spec["hi"]]
+    return dict(kind=spec["kind"], lo=lo, hi=hi, obj=[dict(a=[0.0] * d, t=[0.0] * d, b=[1.0 + j] * d) for j in range(nobj)],
+                obj_wt=[-w for w in spec.get("obj_wt", [1.0] * nobj)])
+
+
+def public_mismatch(prob, spec):
+    """None if the problem's PUBLIC properties describe `spec`, else the name of the first field that does not"""
+    v = R.public_view(prob)
+    if spec["kind"] == "subset":
+        c = spec["cand"]
+        exp = dict(ndecn=spec["k"], decn_space=list(c), lower=[min(c)] * spec["k"], upper=[max(c)] * spec["k"])
+    else:
+        exp = dict(ndecn=len(spec["lo"]), decn_space=[list(spec["lo"]), list(spec["hi"])], lower=list(spec["lo"]), upper=list(spec["hi"]))
+    nobj = len(spec["obj"])
+    exp.update(nobj=nobj, obj_wt=list(spec.get("obj_wt", [1.0] * nobj)), nineqcv=len(spec.get("ineq", [])), neqcv=len(spec.get("eq", [])),
+               ineqcv_wt=list(spec.get("ineq_wt", [1.0] * len(spec.get("ineq", [])))), eqcv_wt=list(spec.get("eq_wt", [1.0] * len(spec.get("eq", [])))))
+    for f, e in exp.items():
+        got = v[f]
+        if got != e and [float(x) for x in numpy.ravel(got)] != [float(x) for x in numpy.ravel(e)]:
+            return f
+    return None
 
 
 # ----------------------------------------------------------------------------
@@ -172,23 +231,36 @@ def _l1_groups(tier):
     return g
 
 
+ORDER_CONS = ("none", "oineq", "both")
+
+
 def _l1_shards(tier, seed):
     out = []
     target = 4000 if tier == "quick" else 12000
     for n, k, nalpha, oks, cns in _l1_groups(tier):
         vecs = list(itertools.product(range(nalpha), repeat=n))
         probs = [(ok, cn, v) for ok in oks for cn in cns for v in vecs]
+        # order-dependent objectives / constraints (k >= 2: a single position has no order)
+        if k >= 2 and len(oks) > 2:
+            probs += [(ok, cn, v) for ok in ORDER for cn in ORDER_CONS for v in vecs]
         per = max(1, target // (n ** k))
         for i in range(0, len(probs), per):
             out.append(("L1", HILL, n, k, probs[i:i + per]))
         if n <= 3:
             out.append(("L1", HILL_RS, n, k, probs))
         # the two generator-free optimisers: one execution per problem
-        sp = [(ok, cn, v) for ok in oks for cn in cns for v in vecs if ok.startswith("sep")]
+        sp = [p for p in probs if p[0].startswith("sep") or p[0] in ORDER]
         for i in range(0, len(sp), target // 2):
             out.append(("L1", SORT, n, k, sp[i:i + target // 2]))
         for i in range(0, len(probs), target // 2):
             out.append(("L1", SHILL, n, k, probs[i:i + target // 2]))
+        if n <= 3 or (n, k) == (4, 2):
+            # setter histories: the same problems reached by constructing a DIFFERENT problem (other candidates, other k,
+            # other weights, no constraints) and changing every public attribute through its setter
+            for a in (HILL, SORT, SHILL):
+                pl, step = (sp, target // 2) if a == SORT else (probs, per if a == HILL else target // 2)
+                for i in range(0, len(pl), step):
+                    out.append(("L1", a + HIST, n, k, pl[i:i + step]))
     return out
 
 
@@ -203,22 +275,37 @@ def l1_spec(seed, n, k, okind, con, vec):
 
 def l1_run(ctx, algo, spec, answers=None):
     """All executions of one (algorithm, problem): every answer of the initial draw."""
-    prob = R.build(spec)
+    hist = None
+    tagx = ""
+    if algo.endswith(HIST):
+        algo = algo[:-len(HIST)]
+        hist = hist_spec(spec)
+        tagx = HIST
+    prob = R.build_hist(spec, hist)
     before = R.snapshot(prob)
+    bad = public_mismatch(prob, spec)
+    if bad is not None:
+        ctx.violation(f"L1:SubsetProblem:setter-not-reflected:{bad}", f"after the setter history the public property {bad} is "
+                      f"{R.public_view(prob)[bad]}", dict(layer="L1", algo=algo + tagx, spec=spec, answers=[]))
     cand = spec["cand"]
     k = spec["k"]
     rs = algo == HILL_RS
     algo = HILL if rs else algo
+    if rs:
+        tagx = "[RandomState]"
     cls = _algo_cls(algo)
     cache = {}
-    separable = all(o["pair"] is None for o in spec["obj"])
-    brute = R.brute_min_obj(prob, cand, k) if algo == SORT else None
+    ordered = R.order_dependent(spec)
+    separable = all(o["pair"] is None for o in spec["obj"]) and not ordered
+    brute = R.brute_min_obj(prob, cand, k) if (algo == SORT and separable) else None
 
     n = len(cand)
     # evaluation budget of any search whose every accepted move strictly improves (cv, score): the value depends on the
     # multiset of selected members only, so at most C(n+k-1,k) solutions are visited, each scan costs <= k*n evaluations;
     # the sorting variants spend n single-member evaluations first
     budget = 1 + n + (_fact(n + k - 1) // (_fact(k) * _fact(n - 1)) + 1) * k * n
+    if ordered:      # the value depends on the ordered tuple: at most n^k solutions are visited
+        budget = 1 + n + (n ** k + 1) * k * n
 
     def run(ch):
         h = R.InitialDrawHandler(ch)
@@ -244,8 +331,8 @@ def l1_run(ctx, algo, spec, answers=None):
     for ch, (soln, err, h) in it:
         ctx.evaluations += 1
         ctx.transitions += 1
-        ctx.count(f"L1:exec:{algo}" + ("[RandomState]" if rs else ""))
-        case = dict(layer="L1", algo=HILL_RS if rs else algo, spec=spec, answers=list(ch.taken))
+        ctx.count(f"L1:exec:{algo}" + tagx)
+        case = dict(layer="L1", algo=algo + tagx, spec=spec, answers=list(ch.taken))
 
         def oracle():
             if err is not None:
@@ -256,8 +343,12 @@ def l1_run(ctx, algo, spec, answers=None):
             ctx.traces += 1
         else:
             if R.snap_diff(before, R.snapshot(prob)) is not None:
-                prob = R.build(spec)
+                prob = R.build_hist(spec, hist)
         _l1_coverage(ctx, algo, spec, soln, h, separable)
+        if ordered:
+            ctx.flag("L1:order-dependent")
+        if hist is not None:
+            ctx.flag("L1:setter-history")
         if h.seen:
             ctx.flag("L1:init-replace" if h.seen[0][2] else "L1:init-noreplace")
         if ctx.evaluations % 7919 == 1 and soln is not None:
@@ -288,7 +379,9 @@ def _l1_oracle(ctx, algo, prob, before, spec, soln, h, cache, brute, separable):
     for name, got, exp in (("obj", soln.soln_obj, o), ("ineqcv", soln.soln_ineqcv, g), ("eqcv", soln.soln_eqcv, e)):
         require(isinstance(got, numpy.ndarray) and got.shape == (1, len(exp)) and _eq(got[0], exp), P + "stale-" + name,
                 lambda: f"reported {name} {None if got is None else got.tolist()} but evalfn({list(key)}) gives {exp.tolist()}")
-    if algo == SORT:
+    if algo == SORT and brute is None:
+        pass          # order-dependent objective: the sorting optimiser is only held to validity + truthfulness
+    elif algo == SORT:
         require(close(float(o.sum()), brute), P + "not-brute-force-optimum",
                 lambda: f"scores {spec['obj'][0]['s']} wt {spec['obj_wt']}: returned {list(key)} with objective {float(o.sum())}, "
                         f"brute force over all C({n},{k}) subsets gives {brute}")
@@ -468,6 +561,8 @@ def l2_run(ctx, op, spec, parents, par, answers=None):
             ctx.flag(f"L2:drew:{op}")
         if degenerate:
             ctx.flag(f"L2:k==n:{op}")
+        if not subset and min(spec["hi"]) < 0:
+            ctx.flag("L2:negative-upper-bound")
         if ctx.evaluations % 7919 == 1 and out is not None:
             ctx.sample(dict(layer="L2", op=op, parents=parents, answers=list(ch.taken),
                             offspring=[numpy.asarray(r).tolist() for r in out]))
@@ -578,7 +673,12 @@ def _l2_shards(tier, seed):
     # integer operators
     full = (0.25, 0.75, 0.0, 1.0 / TWO53, 0.5, 0.5 + 2.0 ** -53, TOP)
     small = (0.4, 0.75, 0.0, TOP)
-    for lo, hi, menu in (([-1], [2], full), ([0, -1], [2, 0] if not T else [3, 0], small), ([2, 0], [2, 1], full)):
+    # boxes with negative upper bounds, zero-straddling ranges and a variable fixed at a negative value (rounding / casting
+    # of negative reals is where integer conversion goes wrong); thorough adds the non-negative ones
+    boxes = [([-3], [-1], full), ([-3, -1], [-2, 1], small), ([-2, 0], [-2, 1], full)]
+    if T:
+        boxes += [([-1], [2], full), ([0, -1], [3, 0], small), ([2, 0], [2, 1], full)]
+    for lo, hi, menu in boxes:
         vecs = [list(v) for v in itertools.product(*[range(a, b + 1) for a, b in zip(lo, hi)])]
         free = sum(1 for a, b in zip(lo, hi) if a != b)
         for a in (vecs if (T or len(lo) == 1) else vecs[::2]):
@@ -648,43 +748,69 @@ def _vec_spec(kind, lo, hi, multi, con, seed):
     return sp
 
 
+SETTERS = "setters:"      # tag prefix: the problem object is reached through a setter history (see hist_spec)
+
+
 def l3_problems(seed, kind, multi, tier):
     """The explicit finite problem family per decision encoding: (tag, spec)."""
     T = tier == "thorough"
     out = []
     al = SCORES[seed % 3]
-    if kind == "subset":
-        if T:
-            grid = [(4, 2, CONS, 2), (5, 3, CONS, 2), (5, 2, ("none", "both"), 4), (3, 3, ("none", "ineq"), 1), (2, 1, ("none",), 1)]
+
+    def sub(n, k, con, var):
+        """var: a landscape (multi) / objective kind (single) name, or 'order' for order-dependent objectives"""
+        pat = [al[2], al[0], al[1], al[0], al[2], al[1]][:n]
+        if multi:
+            if var.startswith("order"):
+                u = UNIT[seed % 3]
+                a, b = ("pos", "opair") if var == "order" else ("opair", "pos")
+                sp = subset_spec(seed, n, k, [u * i for i in range(n)], a, 1.0, con, scores2=[u * (n - 1 - i) for i in range(n)], okind2=b)
+            else:
+                sp = l2_problem(seed, n, k, var)
+                sp.update(constraints(con, n))
         else:
-            grid = [(4, 2, ("none", "ineq", "infeasible"), 2), (5, 3, ("none", "ineq"), 1), (3, 3, ("none",), 1)]
-        for n, k, cons, nv in grid:
-            pat = [al[2], al[0], al[1], al[0], al[2], al[1]][:n]
-            for con in cons:
-                if multi:
-                    lands = ("anti", "mixed", "corr", "const")
-                    for land in (lands[2:] if nv == 4 else lands[:nv]):
-                        sp = l2_problem(seed, n, k, land)
-                        sp.update(constraints(con, n))
-                        out.append((f"subset n{n} k{k} {land} {con}", sp))
-                else:
-                    oks = ("sep", "adj", "sep-", "par")
-                    for ok in (oks[2:] if nv == 4 else oks[:nv]):
-                        out.append((f"subset n{n} k{k} {ok} {con}", subset_spec(seed, n, k, pat, "sep" if ok.startswith("sep") else ok,
-                                                                             -1.0 if ok == "sep-" else 1.0, con)))
+            ok = {"order": "pos", "order2": "opair"}.get(var, var)
+            sp = subset_spec(seed, n, k, pat, "sep" if ok.startswith("sep") else ok, -1.0 if ok == "sep-" else 1.0, con)
+        return (f"subset n{n} k{k} {var} {con}", sp)
+
+    if kind == "subset":
+        v = ("anti", "mixed", "corr", "const") if multi else ("sep", "adj", "sep-", "par")
+        if T:
+            for n, k in ((4, 2), (5, 3)):
+                out += [sub(n, k, con, var) for con in CONS for var in v[:2]]
+                out += [sub(n, k, con, var) for con in ORDER_CONS for var in ("order", "order2")]
+            out += [sub(5, 2, con, var) for con in ("none", "both") for var in v[2:]]
+            out += [sub(3, 3, "none", v[0]), sub(3, 3, "ineq", v[0]), sub(2, 1, "none", v[0])]
+            hist = [sub(4, 2, "ineq", v[0]), sub(5, 3, "oineq", "order"), sub(3, 3, "none", v[1])]
+        else:
+            out += [sub(4, 2, "none", v[0]), sub(4, 2, "none", v[1]), sub(4, 2, "ineq", v[0]), sub(4, 2, "infeasible", v[1]),
+                    sub(5, 3, "none", v[0]), sub(5, 3, "ineq", v[0]), sub(3, 3, "none", v[0]),
+                    sub(4, 2, "none", "order"), sub(5, 3, "oineq", "order2")]
+            hist = [sub(4, 2, "ineq", v[0])]
     else:
         if kind == "real":
-            boxes = [([-1.0, 0.0], [2.0, 0.5]), ([0.25], [0.75])] + ([([-1.0, 0.0, 1.0], [1.0, 0.0, 3.0])] if T else [])
-            cons = ("none", "ineq", "infeasible")
+            neg = ([-7.0, 0.0, -9.0], [-3.0, 4.0, -2.0])
+            plan = [(([-1.0, 0.0], [2.0, 0.5]), ("none", "ineq", "infeasible")), (([0.25], [0.75]), ("none",)), (neg, ("none",))]
+            if T:
+                plan += [(([-1.0, 0.0, 1.0], [1.0, 0.0, 3.0]), ("none", "ineq", "infeasible")), (neg, ("ineq",))]
+            hist = [(([-1.0, 0.0], [2.0, 0.5]), "ineq")] + ([(neg, "none")] if T else [])
         elif kind == "integer":
-            boxes = [([-1, 0], [2, 1]), ([2, 0], [2, 1])] + ([([0], [3]), ([-2, -1, 0], [0, 1, 0])] if T else [])
-            cons = ("none", "ineq", "eq", "infeasible")
+            neg = ([-7, 0, -9], [-3, 4, -2])
+            plan = [(([-1, 0], [2, 1]), ("none", "ineq", "eq", "infeasible")), (([-2, 0], [-2, 1]), ("none",)), (neg, ("none", "ineq"))]
+            if T:
+                plan += [(([0], [3]), ("none", "ineq", "eq", "infeasible")), (([-2, -1, 0], [0, 1, 0]), ("none", "ineq", "eq", "infeasible")),
+                         (([2, 0], [2, 1]), ("none",)), (neg, ("eq",))]
+            hist = [(neg, "none")] + ([(([-1, 0], [2, 1]), "ineq")] if T else [])
         else:
-            boxes = [([0, 0], [1, 1]), ([0, 0, 0], [1, 1, 1])] + ([([0], [1])] if T else [])
-            cons = ("none", "ineq", "eq", "infeasible")
-        for lo, hi in boxes:
+            plan = [(([0, 0], [1, 1]), ("none", "ineq", "eq", "infeasible")), (([0, 0, 0], [1, 1, 1]), ("none", "eq"))]
+            if T:
+                plan += [(([0], [1]), ("none", "ineq", "eq", "infeasible")), (([0, 0, 0], [1, 1, 1]), ("ineq", "infeasible"))]
+            hist = [(([0, 0, 0], [1, 1, 1]), "ineq")]
+        for (lo, hi), cons in plan:
             for con in cons:
                 out.append((f"{kind} lo{lo} hi{hi} {con}", _vec_spec(kind, lo, hi, multi, con, seed)))
+        hist = [(f"{kind} lo{lo} hi{hi} {con}", _vec_spec(kind, lo, hi, multi, con, seed)) for (lo, hi), con in hist]
+    out += [(SETTERS + tag, sp) for tag, sp in hist]
     return out
 
 
@@ -719,8 +845,19 @@ def l3_run(ctx, cname, tag, spec, ps, ng, pin):
     modn, kind, multi, extra = GA_CLASSES[cname]
     mod = importlib.import_module(f"pybrops.opt.algo.{modn}")
     cls = getattr(mod, cname)
-    prob = R.build(spec)
+    hist = hist_spec(spec) if tag.startswith(SETTERS) else None
+    prob = R.build_hist(spec, hist)
     before = R.snapshot(prob)
+    bad = public_mismatch(prob, spec)
+    if bad is not None:
+        ctx.violation(f"L3:{SOLN[kind][:-8]}Problem:setter-not-reflected:{bad}", f"after the setter history the public property {bad} "
+                      f"is {R.public_view(prob)[bad]}", dict(layer="L3", cls=cname, tag=tag, spec=spec, pop_size=ps, ngen=ng, pin=pin))
+    if hist is not None:
+        ctx.flag(f"L3:setter-history:{kind}")
+    if R.order_dependent(spec):
+        ctx.flag(f"L3:order-dependent:{cname}")
+    if kind in ("real", "integer") and min(spec["hi"]) < 0:
+        ctx.flag(f"L3:negative-upper-bound:{kind}")
     degenerate = kind == "subset" and spec["k"] == len(spec["cand"])
     seen = {}
     real_min = getattr(mod, "minimize", None)      # pymoo.optimize.minimize as imported by the wrapper module
@@ -831,12 +968,15 @@ def run_shard(spec, ctx):
         "L1": "n<=5 candidates, all k<=n, score vectors = alphabet^n (3 values; 2 values for n=4,k>=3 / n=5,k>=2 quick, "
               "n=5,k>=4 thorough; n=5,k>=4 thorough only; thorough adds n=6,k<=3 over 2 values), objective in {separable, separable weight -1, 3 pair-interaction "
               "tables}, constraints in {none, ineq, eq, both, all-infeasible}; every answer of the initial rng.choice call",
+        "L1_order_and_history": "plus, for every (n, k>=2): order-dependent objectives {position weights, non-symmetric table over "
+              "consecutive positions} x {none, position-weighted ineq, both}; setter histories (problem reached through the "
+              "public setters from a different problem) for all problems with n<=3 and (n,k)=(4,2)",
         "L1_exhaustive": True,
         "L2": f"set space n<={6 if T else 5} (memetic operators n<=5), k<=min(n,3) plus k==n (<=4); parents = all ordered "
               "k-subsets (quick, n=5,k=3: sorted/reversed order for the first parent); every answer of numpy.random.choice/"
               "randint/binomial, random() from a menu of reachable values incl. 0, the thresholds and 1-2^-53; memetic cases "
               f"with more than {6000 if T else 700} answer vectors (large nhcstep) are not generated; integer operators: "
-              "boxes [-1,2], [0,2|3]x[-1,0], [2,2]x[0,1], all parent vectors, random() cells from a 4- or 7-value menu",
+              "boxes [-3,-1], [-3,-2]x[-1,1], {-2}x[0,1] (thorough also [-1,2], [0,3]x[-1,0], {2}x[0,1]), all parent vectors, random() cells from a 4- or 7-value menu",
         "L2_exhaustive": True,
         "L3": f"13 GA classes x explicit tiny problem family x pop_size in (4,8) x ngen in (1,2,3) x pinned generator seeds "
               f"0..{len(l3_seeds(ctx.tier)) - 1}",
@@ -885,6 +1025,16 @@ def finalize(ctx, tier, seed):
             assert f"L3:front>1:{cname}" in ctx.flags, cname       # non-domination is not vacuous
     for kind in ("subset", "real", "integer", "binary"):
         assert f"L3:constrained-returned:{kind}" in ctx.flags, kind
+        assert f"L3:setter-history:{kind}" in ctx.flags, kind
+    for cname, (modn, kind, multi, extra) in GA_CLASSES.items():
+        if kind == "subset":
+            assert f"L3:order-dependent:{cname}" in ctx.flags, cname
+    for kind in ("real", "integer"):
+        assert f"L3:negative-upper-bound:{kind}" in ctx.flags, kind
+    for f in ("L1:order-dependent", "L1:setter-history", "L2:negative-upper-bound"):
+        assert f in ctx.flags, f
+    for a in (HILL, SORT, SHILL):
+        assert c.get(f"L1:exec:{a}{HIST}", 0) > 0, a
     assert len(ctx.outcomes) > 1000, len(ctx.outcomes)
     ctx.count("L1:executions", sum(v for k, v in c.items() if k.startswith("L1:exec:")))
     ctx.count("L2:transitions", sum(v for k, v in c.items() if k.startswith("L2:trans:")))
